@@ -186,7 +186,9 @@ def sample_claims(a, x):
 
 def build_event(a, seed, rowscale=False):
     """rowscale: the rows of a batch live on very different scales (row 0 near +m, row 1 near -m, ...) - any real parameter batch is
-    admissible, and a map that lets one row influence another (a shift, a norm, a maximum taken over the whole batch) shows there"""
+    admissible, and a map that lets one row influence another (a shift, a norm, a maximum taken over the whole batch) shows there.
+    The entries of a row are spread over [0.3 m, m]: with a narrower spread a matrix-valued parameter is nearly rank one and two float32
+    routes of an orthonormalisation legitimately differ by 2e-3 (thorough-tier false alarm of the first version, Stiefel choleskyL 6x6)"""
     import torch, numqi
     rng = np.random.default_rng(seed)
     mod = make_module(a)
@@ -197,7 +199,7 @@ def build_event(a, seed, rowscale=False):
         v = rng.uniform(-mag, mag, size=tuple(p.shape))
         if rowscale and a['batch'] >= 2 and v.ndim >= 2 and v.shape[0] == a['batch']:
             sgn = np.array([1.0 if i % 2 == 0 else -1.0 for i in range(a['batch'])]).reshape((-1,) + (1,) * (v.ndim - 1))
-            v = sgn * mag * rng.uniform(0.8, 1.0, size=v.shape)
+            v = sgn * mag * rng.uniform(0.3, 1.0, size=v.shape)        # (0.8, 1.0) made matrix-valued parameters nearly rank one: cond^2 ~ 1e4 is beyond single precision
         vals.append(v)
         p.data[...] = torch.tensor(v, dtype=p.dtype)
     with torch.no_grad():
